@@ -1914,6 +1914,8 @@ func (b *Bounds) proveCtx(cx pathCtx, goal Lin) bool {
 }
 
 // inconsistent: some fact is refuted by the others.
+func (b *Bounds) Inconsistent(facts []Fact) bool { return b.inconsistent(facts) }
+
 func (b *Bounds) inconsistent(facts []Fact) bool {
 	for i, f := range facts {
 		if f.Neq || f.L.IsConst() {
@@ -2360,4 +2362,157 @@ func TermDefinedOutside(t Term, body map[*ssa.BasicBlock]bool) bool {
 		}
 	}
 	return false
+}
+
+// ResultFeasible reports whether fn can return `want` in boolean result 0 under the extra facts
+// (over fn's parameters): some acyclic path to a return with that value has a consistent set of
+// facts. Conditions and results computed by library callees returning bool are expanded into the
+// callee's own paths (two levels), with the callee's parameters substituted by the arguments.
+// "false" is a proof that no such execution exists (loops are cut at their back edges, so it is
+// only used on loop-free predicates); "true" only means no path was refuted.
+func (b *Bounds) ResultFeasible(fn *ssa.Function, want bool, extra []Fact) bool {
+	for _, facts := range b.boolWays(fn, want, 0) {
+		all := append(append([]Fact{}, facts...), extra...)
+		if !b.inconsistent(all) {
+			return true
+		}
+	}
+	return false
+}
+
+type way struct {
+	facts []Fact
+	subst map[Term]Lin
+	phis  map[*ssa.Phi]ssa.Value
+}
+
+func (w way) clone() way {
+	n := way{facts: append([]Fact{}, w.facts...), subst: map[Term]Lin{}, phis: map[*ssa.Phi]ssa.Value{}}
+	for k, v := range w.subst {
+		n.subst[k] = v
+	}
+	for k, v := range w.phis {
+		n.phis[k] = v
+	}
+	return n
+}
+
+const maxWays = 256
+
+// pathWays: one entry per acyclic path from the entry to blk, with the branch conditions taken.
+func (b *Bounds) pathWays(blk *ssa.BasicBlock, depth int, memo map[*ssa.BasicBlock][]way) []way {
+	if ws, ok := memo[blk]; ok {
+		return ws
+	}
+	memo[blk] = nil
+	var out []way
+	if len(blk.Preds) == 0 {
+		out = []way{{subst: map[Term]Lin{}, phis: map[*ssa.Phi]ssa.Value{}}}
+	}
+	for i, pred := range blk.Preds {
+		if blk.Dominates(pred) {
+			continue // back edge
+		}
+		var conds [][]Fact
+		if iff, ok := pred.Instrs[len(pred.Instrs)-1].(*ssa.If); ok && pred.Succs[0] != pred.Succs[1] {
+			conds = b.condWays(iff.Cond, pred.Succs[0] == blk, depth)
+		} else {
+			conds = [][]Fact{nil}
+		}
+		for _, w := range b.pathWays(pred, depth, memo) {
+			for _, cf := range conds {
+				if len(out) >= maxWays {
+					break
+				}
+				nw := w.clone()
+				nw.facts = append(nw.facts, cf...)
+				b.phiSubst(blk, i, nw.subst)
+				for _, in := range blk.Instrs {
+					phi, ok := in.(*ssa.Phi)
+					if !ok {
+						break
+					}
+					nw.phis[phi] = phi.Edges[i]
+				}
+				out = append(out, nw)
+			}
+		}
+	}
+	memo[blk] = out
+	return out
+}
+
+// condWays: alternative fact sets under which cond has the given truth value.
+func (b *Bounds) condWays(cond ssa.Value, truth bool, depth int) [][]Fact {
+	switch x := cond.(type) {
+	case *ssa.Const:
+		if x.Value != nil && x.Value.Kind() == constant.Bool {
+			if constant.BoolVal(x.Value) == truth {
+				return [][]Fact{nil}
+			}
+			return nil
+		}
+	case *ssa.UnOp:
+		if x.Op == token.NOT {
+			return b.condWays(x.X, !truth, depth)
+		}
+	case *ssa.Call:
+		g := x.Call.StaticCallee()
+		if g != nil && InLib(g) && len(g.Blocks) > 0 && depth < 2 && g.Signature.Results().Len() == 1 {
+			var out [][]Fact
+			for _, gf := range b.boolWays(g, truth, depth+1) {
+				var inst []Fact
+				for _, f := range gf {
+					l := LinConst(f.L.C)
+					for t, k := range f.L.T {
+						sub := LinTerm(t)
+						if p, isP := t.K.(*ssa.Parameter); isP && p.Parent() == g {
+							for i, q := range g.Params {
+								if q == p && i < len(x.Call.Args) {
+									if t.Len {
+										sub = b.LenOf(x.Call.Args[i])
+									} else {
+										sub = b.LinOf(x.Call.Args[i])
+									}
+								}
+							}
+						}
+						l = l.Add(sub, k)
+					}
+					inst = append(inst, Fact{L: l, Why: f.Why, Neq: f.Neq})
+				}
+				out = append(out, inst)
+			}
+			return out
+		}
+	}
+	return [][]Fact{b.condFacts(cond, truth, "condition")}
+}
+
+// boolWays: one fact set per acyclic path on which fn returns `want` in result 0.
+func (b *Bounds) boolWays(fn *ssa.Function, want bool, depth int) [][]Fact {
+	var out [][]Fact
+	memo := map[*ssa.BasicBlock][]way{}
+	for _, r := range Returns(fn) {
+		if len(r.Results) == 0 {
+			continue
+		}
+		for _, w := range b.pathWays(r.Block(), depth, memo) {
+			v := r.Results[0]
+			if phi, ok := v.(*ssa.Phi); ok {
+				if e, ok := w.phis[phi]; ok {
+					v = e
+				}
+			}
+			cx := pathCtx{subst: w.subst}
+			for _, cf := range b.condWays(v, want, depth) {
+				var facts []Fact
+				for _, f := range append(append([]Fact{}, w.facts...), cf...) {
+					facts = append(facts, Fact{L: cx.apply(f.L), Why: f.Why, Neq: f.Neq})
+				}
+				out = append(out, facts)
+			}
+		}
+	}
+	return out
 }
